@@ -161,6 +161,12 @@ pub fn enumerate() -> Vec<String> {
         v.push(format!("PREPARE p ({t}) AS SELECT 1"));
         v.push(format!("CREATE PROCEDURE p (@a {t}) AS BEGIN SELECT 1 END"));
     }
+    // texts that begin or end with characters an entry point might be tempted to trim
+    for pre in ["\u{feff}", "\u{200b}", "\u{a0}", "\u{feff} ", "\u{1a}"] {
+        v.push(format!("{pre}SELECT 1"));
+        v.push(format!("SELECT 1{pre}"));
+        v.push(format!("{pre}SELECT 1; {pre}SELECT 2"));
+    }
     // COPY ... FROM STDIN payloads: end marker alone on a line, in the middle of a line, after data
     // on the same line, values with backslashes, empty payload
     for body in ["1\tx\n\\.", "C:\\.cache\t2\n\\.", "x\\.\n\\.", "a\tb\n1\t\\N\n\\.", "\\.", "a b\n \\.\n\\."] {
